@@ -2,6 +2,9 @@ package xsync
 
 import (
 	"context"
+	"runtime"
+	"sync"
+	"sync/atomic"
 	"time"
 )
 
@@ -99,22 +102,47 @@ func VerifGroupStop(which int) {
 	case 0:
 		go func() { g.Do(l.f) }()
 		if vNative() {
-			// native replay only: issue the racing registration from several goroutines
-			// repeatedly, so that the window the scheduler found is hit within a few runs
-			for w := 0; w < 8; w++ {
+			// native replay only: hammer the racing registration with a cheap function from many
+			// goroutines, so that the window the scheduler found by choice is hit within a few
+			// runs (the same assertions, observed with atomics instead of the ghost log)
+			var stopped, late, running int32
+			cheap := func(ctx context.Context) {
+				atomic.AddInt32(&running, 1)
+				if atomic.LoadInt32(&stopped) != 0 {
+					atomic.AddInt32(&late, 1)
+				}
+				atomic.AddInt32(&running, -1)
+			}
+			n := runtime.GOMAXPROCS(0) - 1
+			if n < 2 {
+				n = 2
+			}
+			var ready, fin sync.WaitGroup
+			var quit int32
+			for w := 0; w < n; w++ {
+				ready.Add(1)
+				fin.Add(1)
 				go func() {
-					for i := 0; i < 200000; i++ {
-						g.Do(l.f)
-						if i%64 == 0 {
-							done := false
-							vAtomic(func() { done = l.stopped })
-							if done {
-								return
-							}
-						}
+					defer fin.Done()
+					ready.Done()
+					for atomic.LoadInt32(&quit) == 0 {
+						g.Do(cheap)
 					}
 				}()
 			}
+			ready.Wait()
+			g.StopAndWait()
+			stillRunning := atomic.LoadInt32(&running)
+			atomic.StoreInt32(&stopped, 1)
+			time.Sleep(50 * time.Microsecond)
+			atomic.StoreInt32(&quit, 1)
+			fin.Wait()
+			time.Sleep(50 * time.Microsecond)
+			vAssert(stillRunning == 0, "stopandwait/nothing-running-when-it-returns")
+			vAssert(atomic.LoadInt32(&late) == 0, "stopandwait/nothing-starts-afterwards")
+			cancelParent()
+			vCover("group-stop")
+			return
 		}
 	case 1:
 		go func() {
